@@ -130,6 +130,13 @@ pub fn judge(h: &History, recs: &[StepRec]) -> Result<(u32, u32), Failure> {
                                 if got.map(|c| c.frequency) != Some(f) {
                                     return Err(Failure::new("cflist", case(), format!("CFList entry {i} = {f} Hz (in band) but channel {} is {got:?}", first + i)).with_fp("cflist/valid-entry-not-applied"));
                                 }
+                                // the channel is the one the accept defines — DR0..DR5, downlink on the same
+                                // frequency — not whatever an earlier session attached to that slot
+                                if let Some(c) = got {
+                                    if c.dl_frequency.map(|d| d != f).unwrap_or(false) || c.dr_range != 0x50 {
+                                        return Err(Failure::new("cflist", case(), format!("CFList entry {i} = {f} Hz: channel {} is {c:?}, the accept defines a DR0..DR5 channel with its downlink on the same frequency", first + i)).with_fp("cflist/channel-keeps-earlier-attributes"));
+                                    }
+                                }
                             } else if got.map(|c| c.frequency) == Some(f) {
                                 return Err(Failure::new("cflist", case(), format!("CFList entry {i} = {f} Hz lies outside the band {lo}..{hi} but was applied to channel {}", first + i)).with_fp("cflist/out-of-band-applied"));
                             }
@@ -252,7 +259,7 @@ fn run_one(h: &History, st: &mut Stats, class: &str) -> Result<(), Failure> {
 
 pub fn run(ctx: &mut Ctx) {
     let thorough = ctx.tier == Tier::Thorough;
-    ctx.rule = "(1) sweep: every DLSettings byte x RxDelay 0..15 x CFList classes {none, type 0 with in-band/zero/out-of-band/0xFFFFFF frequencies, type 1 masks incl. all-zero and 500-kHz-only, RFU type octets} x arrival in RX1/RX2 x 9 regions x nb/async, each followed by an uplink; (2) proptest histories of 1..8 steps: join attempts whose windows carry valid / wrong-key / bit-flipped accepts, junk or nothing, after failed attempts and re-joins from a joined (ABP) state, sends in between. Oracle: reference codec decodes the JoinRequest and derives the session keys; refregion decides which accept parameters are valid; snapshot + first uplink observed. Non-trivial: attempt with a frame delivered in a join window; distinct by hash".into();
+    ctx.rule = "(1) sweep: every DLSettings byte x RxDelay 0..15 x CFList classes {none, type 0 with in-band/zero/out-of-band/0xFFFFFF frequencies, type 1 masks incl. all-zero and 500-kHz-only, RFU type octets} x arrival in RX1/RX2 x 9 regions x nb/async, each followed by an uplink; (1b) dynamic plans: join with a five-entry CFList, a downlink that narrows the mask and changes the RX1 downlink frequency and the data-rate range of CFList channels (DlChannelReq, NewChannelReq), re-join whose CFList keeps a subset of the entries (every enabled subset x kept subset): the channels after the re-join are the ones the accept defines (DR0..DR5, downlink on the same frequency); (2) proptest histories of 1..8 steps: join attempts whose windows carry valid / wrong-key / bit-flipped accepts, junk or nothing, after failed attempts and re-joins from a joined (ABP) state, sends in between. Oracle: reference codec decodes the JoinRequest and derives the session keys; refregion decides which accept parameters are valid; snapshot + first uplink observed. Non-trivial: attempt with a frame delivered in a join window; distinct by hash".into();
     ctx.assumptions = vec![
         "Class C receptions during a join attempt are not generated (outside the statement)".into(),
         "RX2 data rates that RP002 defines but the crate does not implement, or that are uplink-only on fixed plans, are don't-care; type-1 CFLists on dynamic plans are don't-care; a type-1 mask must be applied when it enables >= 2 125 kHz channels and must not be applied when it is all-zero".into(),
@@ -308,6 +315,25 @@ pub fn run(ctx: &mut Ctx) {
                         if let Err(f) = run_one(&h, st, "sweep") {
                             st.fail(f);
                         }
+                    }
+                }
+            }
+        }
+    });
+    // (1b) re-joins onto a plan an earlier session left its marks on (mask narrowed, RX1 downlink
+    // frequency and data-rate range of CFList channels changed by DlChannelReq / NewChannelReq)
+    ctx.parallel(|ti, n, st| {
+        let mut j = 0usize;
+        for region in REGIONS.iter().filter(|r| !Reg::from_name(r.name()).unwrap().fixed()) {
+            for front in [FrontKind::Async, FrontKind::Nb] {
+                for k in 0..31 * 32 {
+                    j += 1;
+                    if j % n != ti || (!thorough && k % 4 != 1) {
+                        continue;
+                    }
+                    let h = crate::gen::rejoin_cflist_history_with(*region, front, seed, k, k % 8 != 1);
+                    if let Err(f) = run_one(&h, st, "rejoin-cflist-after-channel-commands") {
+                        st.fail(f);
                     }
                 }
             }
